@@ -175,7 +175,21 @@ pub fn run_case(id: &str, c: &Value) -> Value {
                 Err(TcpOptionWriteError::NotEnoughSpace(n)) => json!({"k": "err", "bytes": [], "doff": n, "hlen": -1, "unchanged": if h == before { 1 } else { 0 }}),
             };
             let alt = if TcpOptions::try_from(&elems[..]) == TcpOptions::try_from_elements(&elems) { 1 } else { 0 };
-            json!({"ev": "opts_elems", "id": id, "elems": c["elems"], "res": res, "set": set, "alt": alt})
+            // set_options on headers that already carry options which DECODE to the same list but are other bytes
+            // (garbage or more padding behind the end-of-list byte): the result does not depend on the history of the header
+            let mut pre: Vec<Value> = vec![];
+            if let Ok(o) = TcpOptions::try_from_elements(&elems) {
+                for tail in [&[0u8, 0xde, 0xad, 0xbe][..], &[0, 0, 0, 0], &[0, 0, 0, 0, 0, 0, 0, 0]] {
+                    let mut raw = o.as_slice().to_vec();
+                    raw.extend_from_slice(tail);
+                    let mut h = TcpHeader::new(1, 2, 3, 4);
+                    if h.set_options_raw(&raw).is_ok() {
+                        let r = h.set_options(&elems);
+                        pre.push(json!({"ok": if r.is_ok() { 1 } else { 0 }, "bytes": h.options.as_slice(), "doff": h.data_offset(), "hlen": h.header_len()}));
+                    }
+                }
+            }
+            json!({"ev": "opts_elems", "id": id, "elems": c["elems"], "res": res, "set": set, "alt": alt, "pre": pre})
         }
     }));
     r.unwrap_or_else(|_| json!({"ev": "panic", "id": id}))
